@@ -112,7 +112,11 @@ class Func:
             # a result with a `None` component (e.g. `(theta, None)`) is modelled as `.none`
             if p.kind == 'ok' and p.value is not None and _has_none(p.value):
                 p.value = None
-        types = {type_of(p.value) for p in self.paths if p.kind == 'ok' and p.value is not None}
+        try:
+            types = {type_of(p.value) for p in self.paths if p.kind == 'ok' and p.value is not None}
+        except Untranslatable as e:
+            self.error = str(e); self.paths = None
+            return self
         if len(types) > 1:
             self.error = f'paths return different types: {sorted(types)}'; self.paths = None
             return self
